@@ -15,13 +15,16 @@ MANIFEST = dict(
          "any label, the UTF-8 mark does not (refuted, D14), --encoding none is the identity with the mark "
          "kept, slices/mmaps take the reader path exactly when a label is set or a mark is present; the "
          "reference streaming UTF-16LE/BE decoder gives utf16_to_utf8 of the whole input for every "
-         "fragmentation (code units and surrogate pairs split anywhere; lone surrogates, odd tail -> U+FFFD). "
+         "fragmentation (code units and surrogate pairs split anywhere; lone surrogates, odd tail -> U+FFFD) and is "
+         "proved equal to a declarative specification (bytes -> code units -> scalar values -> UTF-8), so the bytes "
+         "searched for UTF-16 input are proved to be its UTF-8 equivalent; the UTF-8 validator of -E utf-8 is "
+         "modelled and fragmentation independent. "
          "Tie to the code: the Coq decoder vs encoding_rs fed the same chunks; the bytes the real searcher "
          "sees (every strategy, fragmenting reader, roll-buffer capacities 1.., inputs beyond the 8 KiB "
          "transcoding buffer) vs the model and vs the reference transcoding computed with encoding_rs; rg "
          "stdout on encoded files vs on their transcodings (mmap, no mmap, stdin, -U).",
-    note="PARTIAL: encoding_rs / encoding_rs_io are third-party and only modelled (UTF-16) or sampled (UTF-8 "
-         "validation, windows-1252, shift_jis); the reduction of 'same results' to 'same searched bytes' rests on "
+    note="PARTIAL: encoding_rs / encoding_rs_io are third-party and only modelled (UTF-16, UTF-8 validation: compared "
+         "on every run; the UTF-8 model is not proved against a declarative spec) or sampled (windows-1252, shift_jis); the reduction of 'same results' to 'same searched bytes' rests on "
          "C02 (results independent of how bytes reach the searcher). Known findings: D14 (UTF-8 mark does not "
          "displace a label), a second mark after the mark is removed too, malformed UTF-8 after a UTF-8 mark is "
          "passed through unreplaced.",
@@ -235,6 +238,39 @@ def check_decoder_cases(ctx, rng, n, stats):
             ctx.violation("encoding_rs UTF-16 decoder output depends on the fragmentation", dict(kind=1701, line=l, code=c))
 
 
+def check_decoder8_cases(ctx, rng, n, stats):
+    """the UTF-8 decoder (validation, U+FFFD per maximal ill-formed subpart, mark removal): Coq vs encoding_rs"""
+    cases = []
+    pool = [b"a", b"\n", "é".encode(), "日".encode(), "😀".encode(), b"\xef\xbb\xbf", b"\xff", b"\xc0\xaf", b"\xe0\x80", b"\xed\xa0\x80",
+            b"\xf0\x8f", b"\xf4\x90", b"\xc3", b"\xe6\x97", b"\xf0\x9f\x98", b"\x80", b"\xbf", b"\xef\xbb", b"\xef", b"\xf5", b"\xe0\xa0\x80",
+            b"\xf4\x8f\xbf\xbf", b"\xed\x9f\xbf"]
+    for _ in range(n):
+        b = b"".join(rng.choice(pool) for _ in range(rng.randint(0, 8)))
+        if rng.random() < 0.3:
+            b = b"\xef\xbb\xbf" + b
+        chunks = []
+        p = 0
+        while p < len(b):
+            k = rng.choice([0, 1, 1, 1, 2, 3, 5])
+            chunks.append(b[p:p + k])
+            p += k
+        cases.append(chunks)
+    ml = [vlist([vlist([vbytes(c) for c in ch])]) for ch in cases]
+    cl = [vlist(["0", vlist([vbytes(c) for c in ch]), "1"]) for ch in cases]
+    mo = vlib.model(1705, ml)
+    co = vlib.code(1704, cl)
+    for ch, l, m, c in zip(cases, cl, mo, co):
+        ctx.note_case(l, len(ch) > 1)
+        stats["decoder8_cases"] += 1
+        mv = parse_val(m) if m.startswith("(") else None
+        cv = parse_val(c) if c.startswith("(") else None
+        if mv is None or cv is None or bz(mv[0]) != bz(cv[0]):
+            ctx.violation("UTF-8 decoder: Coq reference and encoding_rs disagree", dict(kind=1705, line=l, model=m, code=c), nfi=True)
+        elif bz(mv[0]) != bz(mv[1]):
+            ctx.violation("Coq UTF-8 decoder depends on the fragmentation (theorem utf8_chunk_independent broken?)",
+                          dict(kind=1705, line=l, model=m), nfi=True)
+
+
 def run_rg(args, cwd, stdin_path=None):
     fin = open(stdin_path, "rb") if stdin_path else subprocess.DEVNULL
     try:
@@ -356,6 +392,7 @@ def run(ctx):
     tmp = tempfile.mkdtemp(dir=vlib.CACHE, prefix="c17h-")
     try:
         check_decoder_cases(ctx, rng, ctx.count(1500), stats)
+        check_decoder8_cases(ctx, rng, ctx.count(1500), stats)
         check_search_cases(ctx, corpus(), tmp, stats)
         cases = []
         for _ in range(ctx.count(700)):
